@@ -605,6 +605,7 @@ def ctrl_lib(a: int) -> Dict[str, List[Dict[str, Any]]]:
         "write": [I("set", R0, 10 + a), I("set", R1, 1), I("array", R1, 0), I("set", R2, 0), I("store", R0, 0, R2),
                   I("ret_reg", R0), I("ret_arr", 0)],
         "bump": [I("set", R3, 1), I("add", R0, R0, R3)],
+        "gates": [I("h", Q0), I("h", Q1)],
         "keep1": [I("array", C1, 3), I("create_epr", 5, 6, 7, 8, 9), I("wait_all", 3, C0, C1)],
         "keepfree": [I("array", C1, 3), I("create_epr", 5, 6, 7, 8, 9), I("qfree", Q1), I("wait_all", 3, C0, C1)],
     }
@@ -908,6 +909,8 @@ class ControllerRun:
         ev["post"] = post
         # which physical qubits the backend was asked to reset during this operation
         ev["cleared"] = [g[3][0] for g in self.ex.gate_log[mark:] if g[0] == "clear"]
+        # ... and which physical qubits a gate instruction operated on
+        ev["touched"] = [p_ for g in self.ex.gate_log[mark:] if g[0] == "h" for p_ in g[3] if p_ is not None]
         return ev
 
 
